@@ -357,3 +357,19 @@ CHECKS['C07'] = dict(
     assumptions=['the monotonic clock strictly increases between two calls', 'distinct setfile versions have distinct (inode, mtime seconds)', 'reloading earlier than required is accepted'],
     budget={'quick': 300, 'thorough': 3000},
 )
+
+_RES = H('h_res.c', 'asan', tu_flags={'mtbl/reader.c': ['-Dmmap=vf_mmap', '-Dmunmap=vf_munmap']})
+
+CHECKS['C18'] = dict(
+    level=MC, engine='bfs',
+    technique='exhaustive enumeration of API scenario scripts with every abandon point and both destruction orders; each history is executed three times and process-wide ledgers (sanitizer allocator bytes in use, open descriptors, reader mappings through an mmap seam, temp-dir listing) must not grow between repetitions; pooled-sorter-destroyed-in-flight under the schedule explorer with LeakSanitizer',
+    text='Six scenario families (writer with refused adds; reader on table / non-table / short / empty file with all iterator kinds advanced 0, 1, all; merger with a merge callback failing per key and mtbl_source_write; sorter with 1-3 chunks, pooled or not, merge callback failing inside a chunk or in the final merge, iterator or mtbl_sorter_write path; fileset with dup, open iterators, deferred reload_now, partition; pooled writers sharing a pool) are cut at EVERY point of their script, all live objects are destroyed (two orders), and the whole history is repeated: a repetition-to-repetition growth of heap bytes, descriptors, mappings or temp files is a leak, independent of reachability. Scenarios that the library stops by assertion are not histories that end with every object destroyed and are only counted. Destroying a pooled sorter while chunk jobs are in flight is explored under every schedule with <=2 preemptions.',
+    jobs=[dict(name='scenarios', spec=_RES, args=[])] + [dict(j, env={'ASAN_OPTIONS': 'detect_leaks=1:abort_on_error=0:exitcode=77:handle_segv=0:handle_sigbus=0'}) for j in _sjobs('asan', ['sorter-destroy 2 2 2', 'sorter-destroy 1 3 2', 'sorter-destroy 2 3 1'], prefix='inflight:')],
+    states_key='states', transitions_key='transitions', traces_key='cases', evals_key='cases',
+    rule='one case = (scenario family, variant, abandon point, destruction order); signature = (family, variant, order)',
+    bounds={'quick': '6 families, 50 variants, every abandon point (up to 30 per script), 2 destruction orders; in-flight destroy: P<=2, J<=3, preemption bound 2',
+            'thorough': 'same scripts (they are exhaustive as defined)'},
+    nonzero=['cases', 'scenarios_checked_leak_free', 'scenarios_stopped_by_assertion', 'leak_checks'],
+    assumptions=['heap accounting is the sanitizer allocator\'s bytes-in-use counter; steady state is reached after the first repetition (one-time libc/library caches)'],
+    budget={'quick': 300, 'thorough': 1200},
+)
